@@ -141,6 +141,11 @@ func SetField(rng *Rand, mv reflect.Value, pf *ref.PField, o *FileGenOpts) {
 				t = t.In(z)
 			}
 		}
+		if rng.Chance(1, 24) {
+			// the instant of the FIT epoch itself, carried in a location other than UTC: a set
+			// value (only the package's own UTC sentinel means "unset"), 0 on the wire
+			t = time.Unix(ref.FitEpochUnix, 0).In(time.FixedZone([]string{"GENUTC", "UTC", ""}[rng.Intn(3)], (rng.Intn(29)-14)*3600))
+		}
 		if o != nil && o.LongStrings && rng.Chance(1, 4) {
 			// a value with a sub-second part (time.Now()): its whole seconds travel
 			t = t.Add(time.Duration([]int{1, 499999999, 500000000, 500000001, 999999999, 1 + rng.Intn(999999998)}[rng.Intn(6)]))
@@ -157,6 +162,12 @@ func SetField(rng *Rand, mv reflect.Value, pf *ref.PField, o *FileGenOpts) {
 		if rng.Chance(1, 12) {
 			// the first day after the FIT epoch: east of Greenwich the instant lies before the epoch
 			wall = int64(1 + rng.Intn(86399))
+		}
+		if rng.Chance(1, 16) {
+			// a wall-clock reading on the first day whose instant is exactly the FIT epoch
+			// (02:00 at +02:00): a set value; the field carries the offset in seconds
+			off = (1 + rng.Intn(14)) * 3600
+			wall = int64(off)
 		}
 		t := time.Unix(ref.FitEpochUnix+wall-int64(off), 0).In(time.FixedZone("GEN", off))
 		if zs := TZZones(); len(zs) > 0 && rng.Chance(1, 6) {
